@@ -37,8 +37,16 @@ def r1(ctx):
     if not latch:
         raise AnalysisBroken("pfx_table_elem_matches has no loop")
 
+    def from_arg0(r, depth=0):
+        """the node data handed in, or a cursor that was started from it and is moved along its element array"""
+        if r == ("arg", 0):
+            return True
+        if isinstance(r, tuple) and r[0] == "phi" and depth < 3:
+            return any(from_arg0(vf.root_of(vf.expr(fn, v)), depth + 1) for v, b in fn.insts[r[1]]["inc"] if vf.expr(fn, v) != r)
+        return False
+
     def is_el(e, f):
-        return e[0] == "load" and vf.last_field(e[1]) == "data_elem." + f and vf.root_of(e[1]) == ("arg", 0)
+        return e[0] == "load" and vf.last_field(e[1]) == "data_elem." + f and from_arg0(vf.root_of(e[1]))
     ncell = 0
     for asn_zero in (True, False):
         for asn_eq in (True, False):
@@ -78,9 +86,28 @@ def r1(ctx):
                           "returns true inside the loop: %s, goes on to the next element: %s (expected match=%s); comparisons seen %s" % (inloop_true, bool(continued), match, sorted(seen)),
                           key="C01.R1:%s" % cell)
     ctx.floor("C01.R1", ncell, 12)
-    loops = es.index_loops(fn)
-    good = any(L["init"] == "#0" and L["bound"][0] == "load" and vf.last_field(L["bound"][1]) == "node_data.len" for L in loops)
-    ctx.check(good, "C01.R1", "all-elements-examined", "%s:%d" % (fn.relfile, fn.line), "the loop runs over index 0 .. data->len-1", key="C01.R1:loop")
+    # every element is examined: evaluated with three elements of 16 bytes at address 1000, none of which matches - the AS numbers
+    # read must be those of the elements at 1000, 1016 and 1032 (by index or by a cursor that is moved along), then false
+    esz = pdb.struct("data_elem")["size"]
+    examined = []
+
+    def classify_e(inst, E, st):
+        if inst.op == "load" and vf.last_field(vf.expr(fn, inst["ptr"])) == "data_elem.asn":
+            g = fn.inst(inst["ptr"])
+            if g is not None and g.op == "getelementptr" and g["path"][0].startswith("["):
+                b_, ix_ = flow.av_single(E.val(g["base"])), flow.av_single(E.val(g["path"][0][1:-1]))
+                examined.append(b_ + ix_ * (g.d.get("elsize") or esz) if b_ is not None and ix_ is not None else None)
+            else:
+                examined.append(None)
+        return None
+
+    def values_e(pe):
+        return {"node_data.ary": 1000, "node_data.len": 3, "data_elem.asn": 7}.get(vf.last_field(pe))
+    outs_e, _f = es.count_effects(fn, pdb, classify_e, None, values=values_e, cell={1: 9}, cap=64)
+    want_e = [1000 + k * esz for k in range(3)]
+    good = sorted(set(examined), key=str) == want_e and {flow.av_single(o["ret"]) for o in outs_e} == {0}
+    ctx.check(good, "C01.R1", "all-elements-examined", "%s:%d" % (fn.relfile, fn.line),
+              "three elements at 1000, none matching: AS numbers read at %s (expected %s), then false" % (sorted(set(examined), key=str), want_e), key="C01.R1:loop")
 
 
 def r2(ctx):
